@@ -14,6 +14,8 @@ LEAN_MODULES = ["GeoVerif.Props.C06"]
 THEOREMS = [
     "GeoVerif.Ws.uniq_run",
     "GeoVerif.Ws.create_in_use_refused",
+    "GeoVerif.Ws.create_pg_uid_refused",
+    "GeoVerif.Ws.pgSet_in_use_refused",
     "GeoVerif.Ws.refused_no_effect",
     "GeoVerif.Ws.lookup_owner",
     "GeoVerif.Ws.copy_fresh",
@@ -38,13 +40,17 @@ LEVEL_TEXT = (
     "Lean theorems: no two live entities share an identifier after any history (uniq_run/step_nodup), an explicit request to reuse "
     "an identifier in use is refused (create_in_use_refused) and a refused request has no side effect (refused_no_effect), a lookup "
     "returns the one owner (lookup_owner), a copy's identifiers are fresh and pairwise distinct, a colliding copy is refused "
-    "(copy_fresh, copy_collision_refused). Tied to the code by collision-biased differential histories with identifier census."
+    "(copy_fresh, copy_collision_refused). Property groups draw from the same space: an entity cannot take the identifier of a property "
+    "group, a property group neither that of an entity nor that of a group of another object (create_pg_uid_refused, "
+    "pgSet_in_use_refused), both refusals without effect. Tied to the code by collision-biased differential histories (identifiers "
+    "named by the caller as uid=, ID=<UUID> or ID='<string>', for entities and for property groups) with identifier census over "
+    "entities and property groups."
 )
-LEVEL_NOTE = "Trusted: Lean kernel, harness. The model has one identifier space for groups, objects and data (as the property states)."
+LEVEL_NOTE = "Trusted: Lean kernel, harness. The model has one identifier space for groups, objects, data and property groups (as the property states); types are censused on the real workspace only."
 TECHNIQUE = "Lean 4 invariant proof (Nodup of identifiers under every operation) + collision-biased differential histories"
 WANT = {"C06"}
 WEIGHTS = {"create_group": 5, "create_object": 6, "add_data": 6, "remove_ws": 4, "remove_parent": 2, "copy": 4, "gc": 2,
-           "rename": 0, "flag": 0, "set_geometry": 0, "set_values": 0, "pg_add": 1, "move": 1}
+           "rename": 0, "flag": 0, "set_geometry": 0, "set_values": 0, "pg_add": 1, "move": 1, "pg_create": 5, "comment": 0, "visual": 0}
 
 
 def census(ctx, s, case):
@@ -56,6 +62,19 @@ def census(ctx, s, case):
         if len(uids) != len(set(uids)):
             dup = sorted({u for u in uids if uids.count(u) > 1})
             ctx.fail(case, f"identifiers {dup} occur twice in the workspace tree", "C06:duplicate-identifier")
+            return
+        # property groups draw their identifiers from the same space
+
+        def pg_uids(n):
+            out = [g["uid"] for g in n.get("pgs", [])]
+            for k in n["kids"]:
+                out += pg_uids(k)
+            return out
+        pgs = pg_uids(t)
+        clash = sorted(set(pgs) & set(uids)) + sorted({u for u in pgs if pgs.count(u) > 1})
+        if clash:
+            ctx.fail(case, f"identifiers {clash} are held by a property group and by another entity or property group",
+                     "C06:duplicate-identifier:property-group")
             return
         types = {}
 
